@@ -75,8 +75,9 @@ func genInit(rng *rand.Rand, nkeys int) []world.Spec {
 	return init
 }
 
-func genC03(rng *rand.Rand, prop, tier string, idx int) interface{} {
-	sc := &Ctrl{Prop: prop}
+func genC03(g GenCtx) interface{} {
+	rng := g.Rng
+	sc := &Ctrl{Prop: g.Prop}
 	sc.Bufsiz = pickInt(rng, 2, 3, 5, 10, 100)
 	sc.PeriodMs = pickInt(rng, 50, 200, 1000, 10000, 60000)
 	if rng.Intn(3) > 0 {
@@ -113,8 +114,9 @@ func genC03(rng *rand.Rand, prop, tier string, idx int) interface{} {
 	return sc
 }
 
-func genC04(rng *rand.Rand, prop, tier string, idx int) interface{} {
-	sc := &Ctrl{Prop: prop}
+func genC04(g GenCtx) interface{} {
+	rng := g.Rng
+	sc := &Ctrl{Prop: g.Prop}
 	sc.Bufsiz = pickInt(rng, 2, 3, 4, 8, 16, 100)
 	sc.PeriodMs = 0
 	if rng.Intn(3) == 0 {
@@ -353,7 +355,7 @@ func describeCtrl(sci interface{}) string {
 }
 
 func init() {
-	fam := func(gen func(*rand.Rand, string, string, int) interface{}) *Family {
+	fam := func(gen func(GenCtx) interface{}) *Family {
 		return &Family{
 			Gen:      gen,
 			New:      func() interface{} { return &Ctrl{} },
